@@ -84,7 +84,7 @@ def cases(ctx):
                        "cases": rr.random() < 0.4}
     rng = ctx.rng("sampled")
     for i in range(ctx.pick(250, 3000)):
-        w = cropkit.gen_workload(rng, nmax=48)
+        w = cropkit.gen_workload(rng, nmax=48, exotic=True)
         if w["mode"] != "grid" and rng.random() < 0.5:
             w["via"] = "sow_combos"
         n = gens.n_settings(w["combos"], w["cases"])
